@@ -13,6 +13,7 @@ structural precondition of the round trip for every format string at once:
  RF2-ampm    the 12-hour clock: hour digits and AM/PM marker as printed, read back by the parser's rule, give the same
              hour -- folded over the 24 hours
  RF9-roman   the Roman numeral printer is a proper decimal cascade for the digit helper (thousands loop, then /100 %100, /10 %10)
+ RF-minmax   the length range of locale names (the scanner's search window) is a properly computed running minimum / maximum
  RF9-ord     ordinal suffix writer and reader agree on the suffix table (st / nd / rd / th by last digits)
 """
 from core import (AnalysisBroken, strip, kids, const_of, call_args, expr_text, walk, CASTS, member_path, switch_cases, ceval, NotConst)
@@ -339,7 +340,40 @@ def check_roman(P, R):
                   "prints nothing: 2000 comes out as M" % (bop, bound, step, stages, mods), lp)
 
 
+def check_name_ranges(P, R):
+    """the byte-length range of a locale's names bounds the window in which the line scanner looks for a name in front of the
+    first literal: the running minimum and maximum (initialised to the extreme sentinels) must be updated independently -- in an
+    else-if chain the first name only ever updates one of them"""
+    rule = "RF-minmax"
+    from core import guards_of, norm_cond
+    tu = P.tu("libdut_a-dt-locale.o")
+    fn = tu.func("tokenise")
+    if fn is None:
+        raise AnalysisBroken("tokenise vanished")
+    R.saw(fn)
+    ups = {}
+    for x in fn.walk():
+        if x.get("k") == "BinaryOperator" and x.get("op") == "=":
+            l = strip(x["c"][0])
+            if l is not None and l.get("k") == "MemberExpr" and l.get("n") in ("min", "max") and strip(x["c"][1]).get("k") == "DeclRefExpr":
+                ups.setdefault(l["n"], []).append(x)
+    if set(ups) != {"min", "max"}:
+        raise AnalysisBroken("%s: running min / max updates of tokenise not recognised" % rule)
+    for nm, other, op in (("min", "max", "<"), ("max", "min", ">")):
+        for x in ups[nm]:
+            gs = [(g, norm_cond(g["cond"], g["pol"])) for g in guards_of(fn, x) if "pol" in g]
+            own = any(o == op and nm in b for _, (o, a, b) in gs)
+            cross = [g for g, (o, a, b) in gs if other in b or other in a]
+            if own and not cross:
+                R.ob(rule, "tokenise: running %s updated under its own comparison only" % nm, True)
+            else:
+                R.finding(rule, fn, "running %s" % nm, "the running %s of the name lengths is updated only when the comparison for the %s "
+                          "fails (else-if): the first name, which always raises the maximum from 0, never lowers the minimum, so the "
+                          "scanner's window misses names shorter than the recorded minimum" % (nm, other), x)
+
+
 def check(P, R, tier):
+    check_name_ranges(P, R)
     check_roman(P, R)
     check_pairs(P, R)
     check_width(P, R)
